@@ -148,7 +148,7 @@ void simalloc_dump_live(FILE *f, int max)
         Ent *best = NULL;
         for (size_t i = 0; i < g_cap; i++) if (g_tab[i].p && g_tab[i].p != TOMB && g_tab[i].seq > last && (!best || g_tab[i].seq < best->seq)) best = &g_tab[i];
         if (!best) break;
-        fprintf(f, " %zu@%llu", best->n, (unsigned long long)best->seq);
+        fprintf(f, "%s%zu@%llu", k ? "," : "", best->n, (unsigned long long)best->seq);
         last = best->seq;
     }
 }
